@@ -5,11 +5,82 @@ import random
 
 from .. import campaign as C
 from .. import sweeps as S
+from ..tlc import MachineryError
 from .c18 import CONFIGS, _dispatch, program_task
 
 
 def clause_filter(c, v, e):
     return c == 'confine'
+
+
+UNPRIV_ARM = [('ldrt_strt_a1', 'cccc0100ub1lnnnnttttiiiiiiiiiiii'), ('ldrt_strt_a2', 'cccc0110ub1lnnnnttttiiiiiyy0mmmm'),
+              ('xlst_a1', 'cccc0000u11lnnnnttttiiii1yy1iiii'), ('xlst_a2', 'cccc0000u01lnnnntttt00001yy1mmmm')]
+UNPRIV_T32 = [('lst_t1', '1111100s0zzlnnnntttt1110iiiiiiii')]
+
+
+def unpriv_task(task):
+    """second sentence of the property: LDRT/STRT/LDRBT/STRBT/LDRHT/STRHT/LDRSBT/LDRSHT (and the mem_u_unpriv API) executed in
+    a PRIVILEGED mode are permission-checked as User accesses.  MPU on; the data window 64..127 is a region whose AP field
+    separates privileged from User rights (or is left to the background region); aligned and unaligned addresses under every
+    SCTLR.A/U setting, so the byte-wise unaligned path is taken as well."""
+    from .c14 import set_mpu
+    from .. import isa_gen as G
+    limbs = C.limbs
+    rnd = random.Random(task['seed'])
+    g = S.mk_group(dict(task, randmem=task['seed']))
+    v7 = g.cfg['arch_version'] >= 7
+    for k in range(task['n']):
+        thumb = v7 and rnd.random() < 0.3
+        st, pc = S.prep(g, rnd, dict(task, modes='all'), thumb, 0, k)
+        mode = rnd.choice([19, 17, 31, 23, 27, 18, 19])
+        st['cpsr'] = limbs((C.unlimbs(st['cpsr']) & ~0x1F & ~0x200) | mode | (rnd.getrandbits(1) << 9))
+        br = rnd.getrandbits(1)
+        set_mpu(st, g, 1, br)
+        sct = C.unlimbs(st['sys']['SCTLR']) & ~((1 << 22) | 2)
+        sct |= ((1 if v7 else rnd.getrandbits(1)) << 22) | ((rnd.random() < 0.25) << 1)
+        st['sys']['SCTLR'] = limbs(sct)
+        for r in range(12):
+            st['sys']['DRSR%d' % r] = limbs(0)
+            st['sys']['DRBAR%d' % r] = limbs(0)
+            st['sys']['DRACR%d' % r] = limbs(0)
+        ap = rnd.choice([1, 1, 2, 2, 3, 5, 6, 0])
+        if rnd.random() < 0.85:
+            st['sys']['DRSR3'] = limbs((5 << 1) | 1)                    # 64 bytes at 64
+            st['sys']['DRBAR3'] = limbs(64)
+            st['sys']['DRACR3'] = limbs((ap << 8) | 0b000011)          # Normal memory (unaligned access allowed)
+        st['sys']['DRSR11'] = limbs((4 << 1) | 1)                       # the 32-byte block holding the code: full access
+        st['sys']['DRBAR11'] = limbs(pc & ~31)
+        st['sys']['DRACR11'] = limbs((3 << 8) | 0b000011)
+        if (pc & ~31) in (64, 96):
+            continue
+        addr = 64 + rnd.randrange(4, 56)
+        if rnd.random() < 0.5:
+            addr &= ~3
+        if rnd.random() < 0.3:
+            size = rnd.choice([1, 2, 4])
+            op = rnd.choice(['MemUUnprivGet', 'MemUUnprivSet'])
+            act = {'n': op, 'addr': limbs(addr), 'size': size}
+            if op.endswith('Set'):
+                act['val'] = [rnd.getrandbits(8) for _ in range(size)]
+            g.add(st, act, meta={'op': op, 'addr': addr, 'ap': ap, 'mode': mode})
+            continue
+        name, pat = rnd.choice(UNPRIV_T32 if thumb else UNPRIV_ARM)
+        n, t, m = rnd.sample([0, 1, 2, 3, 4, 5, 6, 7, 8, 9, 10, 11, 12], 3)
+        w = G.fill(pat, rnd, fixed={'c': 14, 'n': n, 't': t, 'm': m, 'i': rnd.choice([0, 0, 1, 4, 8]), 'y': rnd.choice([1, 2, 3]) if name.startswith('x') else 0},
+                   regfields='')
+        bank = 'fiq' if mode == 17 and n >= 8 else 'usr'
+        off = (w & 0xFF) if thumb else 0            # T1 is an offset form, the ARM forms are post-indexed
+        st['R']['R%d%s' % (n, bank)] = limbs(addr - off)
+        st['R']['R%d%s' % (m, 'fiq' if mode == 17 and m >= 8 else 'usr')] = limbs(rnd.choice([0, 4, 1, 8]))
+        C.put_instr(st, pc, w, thumb)
+        g.add(st, {'n': 'Step'}, meta={'gen': name, 'word': w, 'thumb': thumb, 'addr': addr, 'ap': ap, 'mode': mode})
+    return [g]
+
+
+def unpriv_filter(c, v, e):
+    if c == 'hosterror':
+        return True
+    return v['path'].startswith(('exact', 'memapi')) and c not in ('range', 'nop-on-condfail')
 
 
 def run(ctx):
@@ -42,11 +113,28 @@ def run(ctx):
     ctx.extra['exhaustive_subspaces'] = ['all 2^16 16-bit Thumb words from User mode (x IT positions per tier)']
     ctx.extra['user_mode_events'] = usr
     ctx.extra['rule'] = ('all 2^16 16-bit Thumb words and random/pattern ARM and Thumb-32 words and random programs, '
-                         'started in User mode, secure and non-secure, MPU off/on; clause "confine" of Trace_Step')
+                         'started in User mode, secure and non-secure, MPU off/on; clause "confine" of Trace_Step; LDRT/STRT/..HT/..BT words '
+                         'and mem_u_unpriv calls in privileged modes against MPU regions that separate privileged from User rights '
+                         '(aligned / unaligned x SCTLR.A/U x E), judged exactly')
     for g, e, v in res[:3]:
         ctx.sample({'group': g.name, 'word': g.meta.get(e['id']), 'out': e['out'], 'cls': e['cls'], 'delta': e['d'],
                     'verdict': v})
     ctx.distinct = {(g.name, e['id']) for g, e, v in res}
+    # unprivileged load/store variants in privileged modes: checked with User permissions
+    utasks = [(unpriv_task, dict(name='unpriv-v%d-%d' % (6 + i % 2, i), seed=ctx.seed + 900 + i, n=400 if q else 8000,
+                                 cfg={'arch_version': 6 + i % 2})) for i in range(8)]
+    ugroups = C.parallel(_dispatch, utasks)
+    ures = C.judge_groups(ctx, ugroups, unpriv_filter, rnd=rnd,
+                          site_of=lambda e, v: e['act']['n'] if e['act']['n'] != 'Step' else (e.get('cls') or v['path']),
+                          tags_of=lambda g, e, v: dict(g.meta.get(e['id'], {}), enc=v['path'].split(':')[-1], out=e['out']))
+    uab = sum(1 for g, e, v in ures if e['out'] == 'dabort')
+    uex = sum(1 for g, e, v in ures if v['path'].startswith(('exact', 'memapi')))
+    ctx.extra['unprivileged_access_events'] = len(ures)
+    ctx.extra['unprivileged_access_events_exact'] = uex
+    ctx.extra['unprivileged_access_aborts'] = uab
+    if uex < len(ures) // 3 or uab < len(ures) // 20:
+        raise MachineryError('unprivileged-access task: %d events, %d exact, %d aborts' % (len(ures), uex, uab))
+    ctx.distinct |= {(g.name, e['id']) for g, e, v in ures}
 
 
 def replay(ctx, path):
